@@ -147,12 +147,17 @@ def mon_c04(w, pre, res, queues):
         w.stats['c04_cycles_with_restore'] += 1
     if any(site.startswith('Server.put<-') for (_a, site, _s) in log):
         w.stats['c04_cycles_with_evict_put'] += 1
+    level_of = getattr(w, 'level_of', None)
     for node in _nodes(cell):
         apps = _apps_under(node)
         cnt = collections.Counter(a.affinity.name for a in apps)
         names_under = {a.name for a in apps}
+        # the level a node stands for: on the real master from the stored
+        # bucket record (an explicit `level`, else the name prefix), so that
+        # the model's own idea of the level is not trusted
+        level = level_of(node) if level_of else node.level
         for aff, c in cnt.items():
-            limit = min(a.affinity.limits[node.level] for a in apps
+            limit = min(a.affinity.limits[level] for a in apps
                         if a.affinity.name == aff)
             if limit != float('inf'):
                 w.stats['c04_limited_checks'] += 1
@@ -163,7 +168,7 @@ def mon_c04(w, pre, res, queues):
                            if an in cell.apps]
                 w.flag('affinity-limit-exceeded',
                        culprit[-1] if culprit else 'no-put-this-cycle',
-                       {'level': node.level, 'node': node.name,
+                       {'level': level, 'node': node.name,
                         'affinity': aff, 'count': c, 'limit': limit})
         for aff in set(cnt) | set(node.affinity_counters):
             if node.affinity_counters.get(aff, 0) != cnt.get(aff, 0):
